@@ -160,7 +160,7 @@ static void run_case(const char *mode, long long idx, uint64_t cs, size_t univer
 				else if(phase == 2) op = r.chance(3, 4) ? 4 : (int)r.below(8);
 				else op = r.below(8);
 				h.do_op(op, r);
-				h.check_all(i % 32 == 31 || universe_size <= 16);
+				h.check_all(universe_size > 4000 ? (i % 1024 == 1023) : (i % 32 == 31 || universe_size <= 16)); // (a full check probes the whole universe and iterates the map)
 			}
 			h.check_all(true);
 		});
